@@ -7,6 +7,7 @@ CONSTANTS
  TagDels = {1}
  SubjSel = {"same"}
  Spells = {"dig", "both"}
+ Dopts = {"check", "man"}
  Script <- ScriptDD
  SerialPrefix = 2
  ObsPolicy = "end"
